@@ -470,8 +470,13 @@ def _sp_sumf(ex, node, st):
             body = f(*([A] + ps + [N])) == z3.If(N > 0,
                        f(*([A] + ps + [N - 1])) + inst, zero)
             if ps:
-                ex.axioms.append(z3.ForAll(ps, body,
-                                 patterns=[f(*([A] + ps + [N]))]))
+                try:
+                    ex.axioms.append(z3.ForAll(ps, body,
+                                     patterns=[f(*([A] + ps + [N]))]))
+                except z3.Z3Exception:
+                    # the list is a merged (if-then-else) term: no explicit
+                    # trigger possible, z3 infers one
+                    ex.axioms.append(z3.ForAll(ps, body))
             else:
                 ex.axioms.append(body)
     return Val(rty, f(*([A] + [p.term for p in pvals] + [n])))
